@@ -277,6 +277,9 @@ def gen_control(quick, seed):
             if not b:
                 inner = "if i >= 3 { break }\n" + inner
             out.append(ps("for:%d" % n, "%sfor %s; %s; %s {\n%s\n}\nprobe(i)" % (pre, a, b, c, inner), tag="three-clause for"))
+    for body in ["probe(i)", "if i == 2 { continue }\nprobe(i)", "if i == 2 { break }\nprobe(i)", "if i == 2 { exit() }\nprobe(i)"]:
+        n += 1
+        out.append(ps("forpost:%d" % n, "i = 0\nfor ; i < 4; probe(8, i) {\ni = i + 1\n%s\n}\nprobe(i)" % body, tag="for with a visible loop clause"))
     # for-in over list / string / map / point value; nested loops; break / continue only innermost
     iters = ['[1, "a", nil]', '"ab"', '"hé世"', '{"k1": 1}', "[]", '""', "{}", "fs", "lst", "[[1, 2], [3]]"]
     for it in iters:
@@ -380,13 +383,14 @@ def gen_use(quick, seed):
     base_extra = {"b.p": "\n".join(stmts_b), "c.p": "\n".join(stmts_c)}
     out.append(ps("use:base", "\n".join(stmts_main), pt=STD_PT, extra=base_extra, tag="use(): shared point, separate variables"))
     # exit() / error injected at every statement position of every script, also inside branches and loops
-    wrappers = ["%s", "if true {\n%s\n}", "for i = 0; i < 2; i = i + 1 {\n%s\n}", "for v in [1, 2] {\nif v == 2 {\n%s\n}\nprobe(v)\n}"]
+    wrappers = ["%s", "if true {\n%s\n}", "for i = 0; i < 2; i = i + 1 {\n%s\n}", "for v in [1, 2] {\nif v == 2 {\n%s\n}\nprobe(v)\n}",
+                "w = 0\nfor ; w < 2; add_key(pst, w) {\nw = w + 1\n%s\n}", "w = 0\nfor ; w < 3; probe(7, w) {\nw = w + 1\nif w == 2 {\n%s\n}\n}"]
     injections = [("exit", "exit()"), ("fail", "q = 1 + nil"), ("failkey", "add_key(kq, 1 + nil)")]
     n = 0
     for which, stmts in (("main", stmts_main), ("b", stmts_b), ("c", stmts_c)):
         for pos in range(len(stmts) + 1):
             for iname, inj in injections:
-                for w in (wrappers if not quick else wrappers[:2] + [wrappers[3]]):
+                for w in (wrappers if not quick else wrappers[:2] + wrappers[3:]):
                     n += 1
                     body = stmts[:pos] + [w % inj] + stmts[pos:]
                     scripts = {"main": "\n".join(stmts_main), "b": base_extra["b.p"], "c": base_extra["c.p"]}
@@ -417,6 +421,13 @@ def gen_cancel(quick, seed):
         ("brk", "for i = 0; i < 5; i = i + 1 {\nif i == 2 { break }\nprobe(i)\n}\nprobe(7)", None),
         ("cont", "for v in [1, 2, 3] {\nif v == 2 { continue }\nprobe(v)\n}\nprobe(7)", None),
         ("err", "probe(1)\nfor i = 0; i < 2; i = i + 1 {\nprobe(i)\n}\nq = 1 + nil\nprobe(2)", None),
+        ("inf-continue", "for ;; {\ncontinue\n}", 120),
+        ("inf-if-continue", "i = 0\nfor ;; {\ni = i + 1\nif i > 1 { continue }\nprobe(i)\n}", 160),
+        ("count-continue", "for i = 0; i < 4; i = i + 1 {\nif i == 1 { continue }\nprobe(i)\n}\nprobe(9)", None),
+        ("count-continue-post", "i = 0\nfor ; i < 4; probe(8, i) {\ni = i + 1\nif i == 2 { continue }\nprobe(i)\n}\nprobe(9)", None),
+        ("nested-continue", "for i = 0; i < 3; i = i + 1 {\nfor j = 0; j < 2; j = j + 1 {\nif j == 0 { continue }\nprobe(i, j)\n}\nif i == 1 { continue }\nprobe(i)\n}", None),
+        ("brk-post", "i = 0\nfor ; i < 4; probe(8, i) {\ni = i + 1\nif i == 3 { break }\nprobe(i)\n}\nprobe(9)", None),
+        ("exit-post", "i = 0\nfor ; i < 4; probe(8, i) {\ni = i + 1\nif i == 2 { exit() }\nprobe(i)\n}\nprobe(9)", None),
         ("exit", "probe(1)\nfor i = 0; i < 3; i = i + 1 {\nif i == 1 { exit() }\nprobe(i)\n}\nprobe(2)", None),
     ]
     for name, text, fuel in progs:
